@@ -180,8 +180,9 @@ func (t *QuicTransport) getConn(ctx context.Context) (_ quic.Connection, newConn
 
 	if t.c != nil {
 		if !ctxIsDone(t.c.Context()) {
+			c := t.c // read under the lock: after the unlock another exchange or a finished dial may set t.c (also to nil)
 			t.m.Unlock()
-			return t.c, false, nil
+			return c, false, nil
 		}
 		// dead conn
 		t.c = nil
